@@ -180,3 +180,11 @@ pub async fn serve_blocks(
     .await;
     format!("{res:?}").lines().next().unwrap_or("").chars().take(160).collect()
 }
+
+impl Dialed {
+    /// Runs a multiplexer with the given capabilities over this authenticated connection until it ends
+    /// (lets the harness speak to the node's RPC servers / clients stream by stream, with arbitrary bodies).
+    pub async fn run_mux(self, ctx: &ctx::Ctx, mux: crate::verif::Mux) -> Result<(), String> {
+        mux.run(ctx, self.0).await
+    }
+}
